@@ -1,5 +1,5 @@
 from checks import osfam
-GUARDS = {"AllReleased", "DirtyAllReleased", "NoCreepMapped", "NoCreepResident", "QuiesceNoLive", "MmapFresh", "Invariant.Inv"}
+GUARDS = {"AllReleased", "DirtyAllReleased", "NoCreepMapped", "NoCreepResident", "QuiesceNoLive", "MmapFresh", "Invariant.Inv", "NothingReservedBehind", "RefillComplete"}
 ARENAS = [("default", {}), ("noarena", {"MIMALLOC_DISALLOW_ARENA_ALLOC": "1"}), ("tiny", {"MIMALLOC_ARENA_RESERVE": "32768"}),
           ("nopurge", {"MIMALLOC_PURGE_DELAY": "-1"}), ("lazy", {"MIMALLOC_EAGER_COMMIT": "0", "MIMALLOC_ARENA_EAGER_COMMIT": "0"}),
           ("largepages", {"MIMALLOC_ALLOW_LARGE_OS_PAGES": "1"})]      # (no huge pages are configured: the large-page mapping fails and ordinary pages are used)
@@ -33,6 +33,10 @@ def run(tier, seed):
         runs.append({"args": ["--workload", "relayos", "--rounds", "3" if q else "6"], "env": dict(env), "tag": tag, "build": "rel"})
         if not q:
             runs.append({"args": ["--workload", "relayos", "--rounds", "4"], "env": dict(env), "tag": tag, "build": "dbg"})
+    # memory left behind in an EXCLUSIVE arena by a thread that exited: freed and force-collected by a thread whose heap may not use that arena -- the arena is empty again
+    for bld in ("rel", "dbg"):
+        runs.append({"args": ["--scenario", "exclrelease"], "env": {}, "tag": "exclrelease", "build": bld})
+    runs.append({"args": ["--scenario", "exclrelease"], "env": {"MIMALLOC_ABANDONED_RECLAIM_ON_FREE": "1"}, "tag": "exclrelease.rof", "build": "rel"})
     return osfam.run_os("C11", tier, seed, runs, builds=["rel", "dbg"] if q else ["rel", "dbg", "sec"], own_guards=GUARDS, crash_decisive=False,
                         group=2 if q else 1,
                         extra_cov={"workloads": ["small", "large", "huge", "mt", "mix", "giant", "relay", "relayos"], "arena_configs": [a for a, _ in ARENAS],
